@@ -181,7 +181,8 @@ fn gen_shape(r: &mut Rng, n: usize, o: &Opts) -> Shape {
     // EXISTS forms: equality correlation, optionally with the symmetric residual `<>`.  Ordered / arithmetic correlated
     // residuals go wrong in the decorrelation rule (flipped comparison, unresolved column) — C23's findings, not the join's.
     let resid = if form == Form::Exists && resid != Resid::None { Resid::Ne } else { resid };
-    let mixed = o.get_usize("mixed", 1) == 1 && jt != JoinType::Cross && r.chance(1, 40);
+    // `mixed=0` never, `mixed=2` always, default 1 case in 40
+    let mixed = jt != JoinType::Cross && match o.get_usize("mixed", 1) { 0 => false, 2 => true, _ => r.chance(1, 40) };
     Shape { jt, form, nkeys, resid, mixed }
 }
 
